@@ -27,6 +27,7 @@ Section CNT.
 Variable ld : leafdec.
 Hypothesis LD : leaf_ok ld.
 Variable fin : N -> N -> list tree -> res stsd.
+Variable acc : bool.
 Variables (nm : list N) (vf w2 : N) (kids : list ctree) (v : stsd).
 Hypothesis Hvf : (vf < 4294967296)%N.
 Hypothesis Hw2 : (w2 < 4294967296)%N.
@@ -41,7 +42,7 @@ Proof. unfold p. rewrite !lenN_app. assert (lenN (be4 vf) = 4%N) by reflexivity.
 
 Lemma cnt_sr_canon pre post cst fuel : zlen (pre ++ p ++ post) < two63 ->
   zlen (pre ++ p ++ post) - zlen pre < Z.of_nat fuel ->
-  exists cst', cnt_sr fin ld fuel h 0 (mkS (mkR (pre ++ p ++ post) (zlen pre) false) cst)
+  exists cst', cnt_sr fin acc ld fuel h 0 (mkS (mkR (pre ++ p ++ post) (zlen pre) false) cst)
                = (Ok v, mkS (mkR (pre ++ p ++ post) (zlen pre + zlen p) false) cst').
 Proof.
   intros Hs Hfuel. unfold cnt_sr. cbn [sr scost].
@@ -75,7 +76,7 @@ Proof.
   destruct (kids_canon_sr ld kids (all_canon_sr ld kids) HW fuel 16%N 16%N (16 + lenN (cencs kids))%N (zlen pre') [] pre' post cst rk sk)
     as [Ho|[Ho Hsk]]; try exact Ek; try lia; try reflexivity; try (rewrite Hbuf; exact Hs);
     try (pose proof (zlen_nonneg pre'); lia); try (change (16 - 16)%N with 0%N; lia); try contradiction.
-  subst rk. cbn [rev app]. rewrite Hfin. destruct sk as [rs cs]. cbn [sr] in Hsk. subst rs.
+  subst rk. cbn [rev app]. destruct sk as [rs cs]. cbn [sr] in Hsk. subst rs. cbn [sr rerr]. rewrite andb_false_r. rewrite Hfin.
   exists cs. rewrite Hbuf. f_equal. f_equal. f_equal. rewrite Hp8. rewrite (zlen_lenN p), HLp, (zlen_lenN (cencs kids)). lia.
 Qed.
 
@@ -120,7 +121,7 @@ Qed.
 Lemma cnt_deleg_r_canon pre post cst fuel : zlen (pre ++ p ++ post) < two63 -> zlen p < Z.of_nat fuel ->
   fst (let '(rb, s1) := read_box_body h (mkI (pre ++ p ++ post) (lenN pre) cst) in
        match rb with
-       | Ok data => (fst (cnt_sr fin ld fuel h 0 (mkS (rnew data) (icost s1))), s1)
+       | Ok data => (fst (cnt_sr fin acc ld fuel h 0 (mkS (rnew data) (icost s1))), s1)
        | Err => (Err, s1) | Panic => (Panic, s1) | OutOfFuel => (OutOfFuel, s1)
        end) = Ok v.
 Proof.
